@@ -1,13 +1,57 @@
-//! Snapshot push through the real loader / installer (filled in with the snapshot round).
+//! Snapshot push through the real loader (leader side: DefaultStateMachineHandler::load_snapshot_data)
+//! and the real installer (follower side: InboundEvent::InstallSnapshotChunk ->
+//! apply_snapshot_stream_from_leader).
+use d_engine_core::*;
 use d_engine_proto::server::storage::SnapshotMetadata;
+use futures::StreamExt;
+use serde_json::json;
 
-use crate::sim::Cluster;
+use crate::sim::{Cluster, poll_once};
 
 pub async fn push_snapshot(
-    _c: &mut Cluster,
-    _from: u32,
-    _to: u32,
-    _meta: SnapshotMetadata,
+    c: &mut Cluster,
+    from: u32,
+    to: u32,
+    meta: SnapshotMetadata,
 ) -> std::result::Result<(), String> {
-    Err("snapshot push not simulated yet".into())
+    let smh = match c.slots.get(&from).and_then(|s| s.h.as_ref()) {
+        Some(h) => h.smh.clone(),
+        None => return Err("leader down".into()),
+    };
+    let mut stream = smh.load_snapshot_data(meta.clone()).await.map_err(|e| format!("load: {e:?}"))?;
+    let mut chunks = vec![];
+    while let Some(ch) = stream.next().await {
+        match ch {
+            Ok(ch) => chunks.push(ch),
+            Err(e) => return Err(format!("chunk stream: {e:?}")),
+        }
+    }
+    let n = chunks.len();
+    let (tx, rx) = tokio::sync::mpsc::channel(n.max(1) + 1);
+    for ch in chunks {
+        let _ = tx.send(ch).await;
+    }
+    drop(tx);
+    let (rtx, rrx) = MaybeCloneOneshot::new();
+    let li = meta.last_included.unwrap_or_default();
+    {
+        let Some(r) = c.slots.get_mut(&to).and_then(|s| s.h.as_mut()).and_then(|h| h.raft.as_mut()) else {
+            return Err("follower down".into());
+        };
+        let _ = r.verif_inbound(vec![InboundEvent::InstallSnapshotChunk(rx, rtx)]).await;
+        let _ = r.verif_internal().await;
+    }
+    let resp = poll_once(rrx).and_then(|r| r.ok()).and_then(|r| r.ok());
+    match resp {
+        Some(r) => {
+            c.events.push(json!({"e":"SnapInstall","from":from,"to":to,"idx":li.index,"t":li.term,
+                "chunks":n,"ok":r.success,"term":r.term}));
+            if r.success { Ok(()) } else { Err("follower reported failure".into()) }
+        }
+        None => {
+            c.events.push(json!({"e":"SnapInstall","from":from,"to":to,"idx":li.index,"t":li.term,
+                "chunks":n,"ok":false,"term":0}));
+            Err("no snapshot response".into())
+        }
+    }
 }
